@@ -111,12 +111,22 @@ class Armorable(metaclass=abc.ABCMeta):
         It can contain the following keys: ``magic``, ``headers``, ``hashes``, ``cleartext``, ``body``, ``crc``.
         """
         m = {'magic': None, 'headers': None, 'body': bytearray(), 'crc': None}
-        if not Armorable.is_ascii(text):
-            m['body'] = bytearray(text)
-            return m
+        if isinstance(text, (bytes, bytearray)):
+            if not Armorable.is_ascii(text):
+                if len(text) == 0 or text[0] & 0x80:
+                    # binary OpenPGP data: the first octet of every packet has bit 7 set
+                    m['body'] = bytearray(text)
+                    return m
 
-        if isinstance(text, (bytes, bytearray)):  # pragma: no cover
-            text = text.decode('latin-1')
+                # otherwise this is text that is not pure ASCII, e.g. a cleartext-signed message in UTF-8
+                try:
+                    text = text.decode('utf-8')
+
+                except UnicodeDecodeError:
+                    text = text.decode('latin-1')
+
+            else:
+                text = text.decode('latin-1')
 
         m = Armorable.__armor_regex.search(text)
 
@@ -192,7 +202,12 @@ class Armorable(metaclass=abc.ABCMeta):
     def from_blob(cls, blob):
         obj = cls()
         if (not isinstance(blob, bytes)) and (not isinstance(blob, bytearray)):
-            po = obj.parse(bytearray(blob, 'latin-1'))
+            if Armorable.is_ascii(blob):
+                po = obj.parse(bytearray(blob, 'latin-1'))
+
+            else:
+                # text that is not pure ASCII (e.g. a cleartext-signed message) stays text
+                po = obj.parse(blob)
 
         else:
             po = obj.parse(bytearray(blob))
